@@ -148,6 +148,29 @@ def cache_rules(prog, rep):
     rg = mod.funcs.get("PsiContour.regrid")
     ok = rg is not None and K("self.setSelfToContour(self.getRegridded(*args,**kwargs))") in T(mod, rg.node)
     rep.ob("R3", "regrid replaces the whole state through the state-copying setter", ok, rg.site() if rg else EQ, "", key="cache/regrid")
+    # field-by-field copies of contour state: every field under its own name, the index/extension
+    # quadruple complete in each copier, sibling copiers of a region agree on what they copy
+    from .. import redundancy
+    copiers = ["PsiContour.setSelfToContour", "PsiContour.newContourFromSelf", "EquilibriumRegion.copy", "EquilibriumRegion.newRegionFromPsiContour"]
+    ncop = 0
+    for qn in copiers:
+        cf = mod.funcs.get(qn)
+        if cf is None:
+            raise AnalysisError("%s not found" % qn)
+        bad = redundancy.copy_field_mismatches(cf)
+        ncop += 1
+        rep.ob("R3", "%s copies every field from the field of the same name" % qn, not bad, cf.site(bad[0][0]) if bad else cf.site(),
+               "; ".join("%s is set from %s" % (a, b) for n_, a, b, k in bad), key="cache/copy-fields/" + qn)
+        fields = redundancy.copied_field_names(cf)
+        need = {"startInd", "endInd", "extend_lower", "extend_upper"}
+        rep.ob("R3", "%s carries over startInd, endInd, extend_lower and extend_upper" % qn, need <= fields, cf.site(), "copied: %s" % sorted(fields), key="cache/copy-quadruple/" + qn)
+    rep.floor("R3.copiers", ncop, 4)
+    fa, fb = (redundancy.copied_field_names(mod.funcs[q]) for q in copiers[2:])
+    rep.ob("R3", "EquilibriumRegion.copy and newRegionFromPsiContour copy the same set of fields", fa == fb, mod.funcs[copiers[2]].site(), "only in one of them: %s" % sorted(fa ^ fb), key="cache/copy-siblings")
+    for f_ in prog.all_funcs():
+        for n_, a, b, k in redundancy.copy_field_mismatches(f_):
+            if f_.qualname not in copiers:
+                rep.ob("R3", "%s copies every field from the field of the same name" % f_.qualname, False, f_.site(n_), "%s is set from %s" % (a, b), key="cache/copy-fields/" + f_.qualname)
     sc = mod.funcs.get("PsiContour.setSelfToContour")
     want = ["points", "startInd", "endInd", "_distance", "psival", "extend_lower", "extend_upper", "_fine_contour"]
     got = sorted(stores(sc))
